@@ -12,7 +12,8 @@
              C17_trunc_between, C17_round_between, C17_round_int (the cast of fix 056e54b), C17_bilinear_at_most_four
   matrix   : C17_matrix_assoc, C17_matrix_one, C17_matrix_apply_mul, C17_matrix_inverse, C17_matrix_maps_back,
              C17_translate_scale_compose, C17_rotate_compose   (any field; cos/sin enter as an opaque pair)
-             C17_matrix_mul_assign (operator*=), C17_matrix_chain, C17_matrix_chain_apply (histories of *=, any list), C17_resample_composed, C17_matrix_rotate_about
+             C17_matrix_mul_assign (operator*=), C17_matrix_chain, C17_matrix_chain_apply (histories of *=, any list), C17_resample_composed, C17_matrix_rotate_about,
+             C17_matrix_mul_assign_any_arithmetic, C17_subimage_centre_corners (resample_subimage's matrix)
   (theorems over the TRANSLATED matrix3x2 kernels: Props/C17Kernel.lean)
   Floating point: every theorem is about exact arithmetic (Rat / an arbitrary field); the code's IEEE operation
   sequence is reproduced by the executable model and compared bit for bit -- partial (float).
@@ -515,6 +516,42 @@ theorem C17_resize_identity {K : Type} [Field K] [LinearOrder K] [IsStrictOrdere
   have hb : b ≠ 0 := ne_of_gt h2
   apply M32_ext <;> simp only [M32.mul, M32.translate, M32.scale, M32.rotate, M32.one] <;> field_simp <;> ring
 
+/-- the matrix of `resample_subimage` (every source rectangle, every destination size, every angle -- (c, s) opaque): the centre of the
+    destination goes to the centre of the source rectangle; at angle 0 the destination's corners `(0,0)` and `(dw', dh')` go to the
+    rectangle's corners `(minx, miny)` and `(minx + sw, miny + sh)` (sw = max(maxx-minx-1, 1), dw' = max(dstW-1, 1), …) -/
+theorem C17_subimage_centre_corners {K : Type} [Field K] [LinearOrder K] [IsStrictOrderedRing K]
+    (minx miny maxx maxy dstW dstH c s : K) :
+    M32.apply (M32.subimage minx miny maxx maxy dstW dstH c s) (max (dstW - 1) 1 / 2, max (dstH - 1) 1 / 2)
+      = (minx + max (maxx - minx - 1) 1 / 2, miny + max (maxy - miny - 1) 1 / 2) ∧
+    (c = 1 → s = 0 →
+      M32.apply (M32.subimage minx miny maxx maxy dstW dstH c s) (0, 0) = (minx, miny) ∧
+      M32.apply (M32.subimage minx miny maxx maxy dstW dstH c s) (max (dstW - 1) 1, max (dstH - 1) 1)
+        = (minx + max (maxx - minx - 1) 1, miny + max (maxy - miny - 1) 1)) := by
+  unfold M32.subimage
+  have h1 : (0 : K) < max (dstW - 1) 1 := lt_of_lt_of_le zero_lt_one (le_max_right _ _)
+  have h2 : (0 : K) < max (dstH - 1) 1 := lt_of_lt_of_le zero_lt_one (le_max_right _ _)
+  generalize max (dstW - 1) 1 = p at *
+  generalize max (dstH - 1) 1 = q at *
+  generalize max (maxx - minx - 1) 1 = a
+  generalize max (maxy - miny - 1) 1 = b
+  have hp : p ≠ 0 := ne_of_gt h1
+  have hq : q ≠ 0 := ne_of_gt h2
+  refine ⟨?_, ?_⟩
+  · simp only [M32.apply, M32.mul, M32.translate, M32.scale, M32.rotate]
+    ext <;> simp only <;> field_simp <;> ring
+  · intro hc hs
+    subst hc hs
+    constructor <;> simp only [M32.apply, M32.mul, M32.translate, M32.scale, M32.rotate] <;>
+      (ext <;> simp only <;> field_simp <;> ring)
+
+example : M32.apply (M32.subimage (1 : Rat) 2 6 5 4 3 0 (-1)) (3 / 2, 1) = (3, 3) := by
+  norm_num [M32.apply, M32.subimage, M32.mul, M32.translate, M32.scale, M32.rotate]
+
+/-- `operator*=` in ANY arithmetic (only `+` and `*`, no laws: floating point included): the members after `m *= n` are exactly the
+    entries of `m * n` computed by the binary operator -- the two never differ by rounding (statement about the model, whose `mulAssign`
+    follows `(*this) = (*this)*m`; the integer kernel version is C17_kernel_mul_assign_eq_mul) -/
+theorem C17_matrix_mul_assign_any_arithmetic {K : Type} [Add K] [Mul K] (m n : M32 K) :
+    M32.mulAssign m n = M32.mul m n := rfl
 
 /-! ## summaries -/
 
